@@ -1,11 +1,159 @@
-(* Property C02 — schedule token contract. Statements only; proofs live in Proofs/. *)
-From Coq Require Import List ZArith Bool.
-From PV Require Import Model.SchedTree Proofs.SchedTreeProofs.
+(* Property C02 — schedule token contract. Statements only; proofs live in Proofs/SchedTree*.v.
+
+   Model/SchedTree.v follows core/schedule/{composite,do_at,unlilmited,start_sync,instance_step}.go and
+   core/coreutil/schedule.go.  The specification is the abstract token stream of the flattened
+   configuration: [items_from] (tokens [IT t] and unlimited windows [IW fin], every part starting
+   at the finish time of the part before it), [abs_next] (first token in order, a window answers
+   "now" while open and is left behind for good once closed, then the final finish time) and
+   [abs_left] (exact count, or -1 while a window is not closed). *)
+From Coq Require Import List ZArith Bool Arith Lia.
+From PV Require Import Model.SchedTree Proofs.SchedTreeProofs Proofs.SchedTreeSeq Proofs.SchedTreeRun Proofs.SchedTreeSpec.
 Import ListNotations.
 Local Open Scope Z_scope.
 
-(* The finish callback of coreutil.NewCallbackOnFinishSchedule runs at most once. *)
-Theorem C02_callback_at_most_once : forall evs : list (bool + Z),
-  (cb_calls (cb_run evs cb_init) <= 1)%nat.
-Proof. exact cb_run_at_most_once. Qed.
-Print Assumptions C02_callback_at_most_once.
+(* ------------------------------------------------------------------ sequential callers *)
+
+(* Every tree of once/const/line (DoAt leaves with any offset function), unlimited and composite
+   parts, of any nesting, including empty composites and zero-token parts and unknown-length
+   parts in any position; every sequence of Start / Next / Left with a non-decreasing clock:
+   the schedule built by the constructors (NewComposite calls Left on its children) never
+   panics, the recursion of Next/Left is bounded by the size of the tree, and every call
+   answers exactly what the abstract token stream answers (run_abs). *)
+Theorem C02_seq_refines : forall c fuel now0,
+  (size_cfg c <= fuel)%nat ->
+  exists s, build fuel now0 c = Ok s /\
+    forall lo ops, clock_ok lo ops ->
+      run_tree fuel s ops = run_abs (a_init (flatten_cfg c)) ops.
+Proof. exact seq_refines. Qed.
+Print Assumptions C02_seq_refines.
+
+(* One step, on any reachable state (wf: current path arbitrary, the rest untouched). *)
+Theorem C02_seq_next : forall fuel now p s s' t ok,
+  wf s -> (started s \/ p = now) -> s_next fuel now s = Ok (s', t, ok) ->
+  wf s' /\ started s' /\ afin p s' = afin p s /\
+  exists its', abs_next now (afin p s) (absp p s) = (its', t, ok) /\
+               drop_closed now its' = drop_closed now (absp p s').
+Proof. exact next_sound. Qed.
+Print Assumptions C02_seq_next.
+
+Theorem C02_seq_left : forall fuel now p s s' k,
+  wf s -> started s -> s_left fuel now s = Ok (s', k) ->
+  wf s' /\ started s' /\ afin p s' = afin p s /\
+  k = abs_left now (absp p s) /\ drop_closed now (absp p s') = drop_closed now (absp p s).
+Proof. exact left_sound. Qed.
+Print Assumptions C02_seq_left.
+
+(* Left before the start: the static count (or -1), and the schedule is not touched. *)
+Theorem C02_seq_left_before_start : forall fuel now s,
+  fresh s -> (size s <= fuel)%nat -> s_left fuel now s = Ok (s, statl (flatten s)).
+Proof. exact left_fresh_total. Qed.
+Print Assumptions C02_seq_left_before_start.
+
+(* ------------------------------------------------------------------ what the stream guarantees *)
+
+(* Without unlimited parts, successive Next calls return exactly the tokens, each once, in
+   order, and then the finish time for ever. *)
+Theorem C02_tokens_exactly_once : forall nows f its, existsb is_window its = false ->
+  nexts nows f its =
+  firstn (length nows) (map (fun x => (tok_time x, true)) its) ++
+  repeat (f, false) (length nows - length its).
+Proof. exact nexts_tokens. Qed.
+Print Assumptions C02_tokens_exactly_once.
+
+(* After exhaustion every call keeps returning the same finish time. *)
+Theorem C02_finish_stable : forall now f its its' t,
+  abs_next now f its = (its', t, false) ->
+  t = f /\ forall now', abs_next now' f its' = ([], f, false).
+Proof. exact abs_finish_stable. Qed.
+Print Assumptions C02_finish_stable.
+
+(* Left is 0 iff no token remains; drops by one per token drawn; negative iff an unlimited
+   window is not closed yet. *)
+Theorem C02_left_exact : forall now f its,
+  (abs_left now its = 0 <-> snd (abs_next now f its) = false) /\
+  (forall its' t, 0 <= abs_left now its -> abs_next now f its = (its', t, true) ->
+                  abs_left now its' = abs_left now its - 1) /\
+  (abs_left now its < 0 <-> existsb is_window (drop_closed now its) = true).
+Proof.
+  intros now f its. split; [apply abs_left_zero_iff|]. split; [apply abs_left_drops|apply abs_left_neg_iff].
+Qed.
+Print Assumptions C02_left_exact.
+
+(* Each part starts exactly at the finish time of the part before it. *)
+Theorem C02_parts_chain : forall p,
+  (forall n d a r, items_from p (DoAt n d a 0 None :: r) =
+     (map (fun k => IT (p + a k)) (seq 0 n) ++ fst (items_from (p + d) r), snd (items_from (p + d) r))) /\
+  (forall d r, items_from p (Unlim d None :: r) =
+     (IW (p + d) :: fst (items_from (p + d) r), snd (items_from (p + d) r))).
+Proof. intros p. split; [apply items_chain_doat|apply items_chain_unl]. Qed.
+Print Assumptions C02_parts_chain.
+
+(* Times never decrease.  The stream of a configuration whose leaves are well behaved
+   (offsets non-decreasing, within [0, duration] — property C01) is ordered ... *)
+Theorem C02_stream_ordered : forall fl p,
+  Forall leaf_ok fl -> Forall unstarted fl ->
+  ordered p (fst (items_from p fl)) (snd (items_from p fl)).
+Proof. exact items_ordered. Qed.
+Print Assumptions C02_stream_ordered.
+
+(* ... so without unlimited parts the times returned never decrease, whatever the clock ... *)
+Theorem C02_mono_finite : forall nows f its lo,
+  existsb is_window its = false -> ordered lo its f -> nondecr lo (nexts nows f its).
+Proof. exact nexts_nondecr_nowin. Qed.
+Print Assumptions C02_mono_finite.
+
+(* ... and with unlimited parts they never decrease for a caller that waits for the time it
+   was given before it calls again (hypothesis [waits]).  PARTIAL: without that hypothesis the
+   statement is false, see C02_mono_refuted (known finding nowait-time-decreases). *)
+Theorem C02_mono_partial : forall nows f its lo,
+  ordered lo its f -> waits lo nows f its -> nondecr lo (nexts nows f its).
+Proof. exact nexts_nondecr. Qed.
+Print Assumptions C02_mono_partial.
+
+Theorem C02_mono_refuted : exists c ops,
+  let s := match build 3 0 c with Ok s => s | _ => once 0 end in
+  run_tree 3 s ops = [RNext 5 true; RNext 0 true].
+Proof.
+  exists (CComp [CDoAt 1 10 (fun _ => 5); CUnlim 10]), [(0, ONext); (0, ONext)].
+  vm_compute. reflexivity.
+Qed.
+Print Assumptions C02_mono_refuted.
+
+(* ------------------------------------------------------------------ instance_step *)
+(* NewInstanceStep(from,to,step,dur): from tokens at the start, then step tokens at j*dur for
+   every j >= 1 with from + j*step <= to; finish = start + (number of steps)*dur. *)
+Theorem C02_instance_step : forall p from to step dur,
+  items_from p (flatten_cfg (instance_step from to step dur)) =
+  (repeat (IT p) from ++ istep_items p (istep_iters from to step) step dur,
+   p + Z.of_nat (istep_iters from to step) * dur) /\
+  (forall j, (0 < step)%nat ->
+     ((1 <= j /\ from + j * step <= to) <-> (1 <= j <= istep_iters from to step))%nat).
+Proof. intros. split; [apply instance_step_items|intros j; apply istep_iters_spec]. Qed.
+Print Assumptions C02_instance_step.
+
+(* ------------------------------------------------------------------ finish callback *)
+(* coreutil.NewCallbackOnFinishSchedule: onFinish runs exactly once iff some call let its
+   caller see the finish (Next with !ok or Left = 0), never otherwise, never twice. *)
+Theorem C02_callback_exactly_once : forall evs : list (bool + Z),
+  cb_calls (cb_run evs cb_init) = (if existsb is_finish evs then 1 else 0)%nat.
+Proof. exact cb_run_exact. Qed.
+Print Assumptions C02_callback_exactly_once.
+
+(* ------------------------------------------------------------------ non-vacuity *)
+(* a nested tree with an unknown-length part in the middle: construction succeeds and the run
+   is the one the stream predicts (clock 100: the 5 ns window [2,7) is closed) *)
+Example C02_example_run :
+  let c := CComp [CComp [CDoAt 2 2 (fun k => Z.of_nat k); CUnlim 5]; CDoAt 0 3 (fun _ => 0); CDoAt 1 0 (fun _ => 0)] in
+  let ops := [(100, OLeft); (100, OStart 0); (100, ONext); (100, OLeft); (100, ONext); (100, OLeft); (100, ONext); (100, ONext); (100, OLeft)] in
+  match build 6 100 c with
+  | Ok s => run_tree 6 s ops = run_abs (a_init (flatten_cfg c)) ops /\
+            run_tree 6 s ops = [RLeft (-1); RStart; RNext 0 true; RLeft (-1); RNext 1 true; RLeft 1; RNext 10 true; RNext 10 false; RLeft 0]
+  | _ => False
+  end.
+Proof. vm_compute. split; reflexivity. Qed.
+
+Example C02_example_leaf_ok :
+  Forall leaf_ok (flatten_cfg (instance_step 2 6 2 10)) /\ Forall unstarted (flatten_cfg (instance_step 2 6 2 10)).
+Proof.
+  cbn. split; repeat constructor; cbn; intros; lia.
+Qed.
